@@ -831,6 +831,9 @@ func runC20(c *core.Ctx, i int) {
 		// a registered type as the root type of a file / codec, and a registered type under an enum schema
 		c20rootAndEnum(c, c.Rand(i, 99))
 	}
+	if i%32 == 9 {
+		c20concurrentRegistrations(c, c.Rand(i, 55))
+	}
 	if i%4 == 1 {
 		// the library's own registrations (null.*, time.Time) in every position under every schema they accept
 		c20builtinPositions(c, c.Rand(i, 77), 3)
